@@ -36,6 +36,23 @@ CHECKS = {
         note="Trusted: spec reader vf/spec.py, reference semantics for the value "
              "classification. Known parser/printer deviations are listed in "
              "known_findings.jsonl by minimal failing (parent, position, child) signature."),
+    "C07": dict(
+        category="exploration", design="DESIGN.md 4/C07",
+        technique="bounded-exhaustive enumeration of token strings (all operator pairs/triples x "
+                  "prefix assignments, mutations) compared with CPython's ast.parse through a "
+                  "table-driven reference parser that attributes known deviations",
+        text="Every ordered pair (thorough: triple) of the 20 binary operators with every "
+             "assignment of prefix operators, conditional mixes, parenthesisations, postfix forms, "
+             "literal and no-whitespace spellings and every token-level mutation (prefix, "
+             "deletion, duplication; 760k strings thorough) is parsed by pymbolic and by CPython; "
+             "bracketings are compared in a neutral form; the AST importer is checked on every "
+             "sub-node. A precedence-climbing reference parser is validated against ast.parse on "
+             "every string and, with five named table overrides, must predict pymbolic's tree "
+             "exactly for a deviation to count as known - so a new deviation cannot hide behind "
+             "the ~38% of strings that already deviate.",
+        note="Trusted: CPython's parser as the definition of the shared grammar; the neutral "
+             "form (negation sign-normalised, sums/products flattened). Strings CPython rejects "
+             "are only required to be fully consumed or rejected with ParseError."),
 }
 
 NOT_BUILT_REASON = "check not built yet in this revision (planned, see DESIGN.md section 4)"
